@@ -322,7 +322,7 @@ def draw_c07(dec, culture='en-us'):
 
 def draw_c10ish(dec, culture='en-us'):
     """Durations and absolute / reference-anchored ranges; no value oracle here, only the C11 validators."""
-    k = dec.choice('c10-kind', 8)
+    k = dec.choice('c10-kind', 9)
     if k == 0:
         unit = ['second', 'minute', 'hour', 'day', 'week', 'month', 'year'][dec.choice('dur-unit', 7)]
         if dec.choice('dur-decimal', 3) == 0:
@@ -353,6 +353,13 @@ def draw_c10ish(dec, culture='en-us'):
                'earlier this month', 'later this year', 'this weekend', 'last weekend', 'next weekend',
                'the past 3 days', 'next 2 weeks', 'previous 5 months', 'last 2 years', 'the coming week',
                'year to date', 'end of this month', 'beginning of next year', 'middle of last week'][dec.choice('rel-range', 19)]
+    elif k == 8:
+        # recurring ('set') expressions
+        each = ['every', 'each'][dec.choice('set-each', 2)]
+        what = ['weekend', 'today', 'tomorrow', 'monday', 'friday', 'day', 'week', 'month', 'year', 'morning', 'night',
+                'day at 5pm', 'friday at 7:30pm', 'other day', '2 weeks', '3 days', 'weekday', 'sunday evening',
+                'january', 'december 25'][dec.choice('set-what', 20)]
+        lit = '%s %s' % (each, what)
     elif k == 7:
         # month-to-month and day-to-day ranges that share ONE trailing year
         m1 = 1 + dec.choice('rm1', 12)
